@@ -13,12 +13,13 @@ class Broken(Exception):
 
 
 class Ctx:
-    def __init__(self, pid, tier, seed):
+    def __init__(self, pid, tier, seed, replay=False):
         self.pid, self.tier, self.seed = pid, tier, seed
         self.t0 = time.time()
         self.alt_repo = os.environ.get("VERIF_REPO", "/repo") != "/repo"
         suffix = ("_" + os.environ["VERIF_REPO"].strip("/").replace("/", "_")) if self.alt_repo else ""
-        self.out = os.path.join(VERIF, "out", pid + suffix)
+        # a replay run works in its own scratch directory: the replay file usually lives in out/<pid>/
+        self.out = os.path.join(VERIF, "out", pid + suffix + ("_replay" if replay else ""))
         shutil.rmtree(self.out, ignore_errors=True)
         os.makedirs(self.out, exist_ok=True)
         self.states = 0
@@ -351,7 +352,7 @@ def write_ndjson(path, recs):
 def validate_trace_file(ctx, module, cfg, trace_path, timeout=900, heap="4g", tag=None, dfs=False, extra_env=None):
     """Returns (accepted, maxl, tlc_result).  maxl = 1-based index of the first line that could not be consumed
     (len+1 when accepted).  An invariant violation during validation is a rejection at the state it names."""
-    env = {"TRACE": trace_path}
+    env = {"TRACE": os.path.abspath(trace_path)}
     if extra_env:
         env.update(extra_env)
     r = run_tlc(ctx, module, cfg, workers=1, timeout=timeout, env=env, heap=heap, tag=tag, dfs_queue=dfs)
